@@ -51,6 +51,8 @@ def main(
     """
     with open(input_envelope, "rb") as fh:
         envelope = cbor2.load(fh)
+    # cbor2 >= 6 decodes the content of a tag as an immutable mapping - work on a mutable copy
+    envelope = cbor2.CBORTag(envelope.tag, dict(envelope.value))
     extracted_payload = envelope.value.pop(payload_name, None)
 
     if extracted_payload is None:
